@@ -9,19 +9,30 @@
 enum { C04_LEN_none = 0, C04_LEN_hh = 1, C04_LEN_h = 2 };
 #define C04_HEXCH(d, upper) ((char)((d) < 10 ? '0' + (d) : ((upper) ? 'A' : 'a') + ((d) - 10)))
 
-/* ret += string_printf(PREFIX "%0<width><len>X", arg) with a `char` argument:
+/* ret += string_printf(PREFIX "%0<width><len>X", arg) with a `char` argument (the literal PREFIX is appended by the caller):
  * the argument undergoes the default argument promotions (char -> int, sign-extending where char is signed: x86-64);
  * 7.21.6.1p7: hh / h -- the value is converted to unsigned char / unsigned short before printing, otherwise it is read as unsigned int;
  * p8 (X): unsigned hexadecimal with the letters ABCDEF; precision 1: at least one digit; p6 (0 flag) + field width: leading zeros
- * pad to the field width; a longer value is never truncated. */
-static inline void C04_printf_hex(vstr* ret, const char* prefix, unsigned width, int len, bool upper, char arg)
+ * pad to the field width; a longer value is never truncated.
+ * The conditions are written so that they fold to constants for a literal width (for hh the value has at most two digits). */
+static inline void C04_printf_hex(vstr* ret, unsigned width, int len, bool upper, char arg)
 {
-  C04_append_lit(ret, prefix);
   unsigned v = (unsigned)(int)arg;
-  if (len == C04_LEN_hh) v = (unsigned char)v;
-  else if (len == C04_LEN_h) v = (unsigned short)v;
-  unsigned nd = v >= 0x10000000u ? 8 : v >= 0x1000000u ? 7 : v >= 0x100000u ? 6 : v >= 0x10000u ? 5 : v >= 0x1000u ? 4 : v >= 0x100u ? 3 : v >= 0x10u ? 2 : 1;
   __CPROVER_assert(width <= 8, "C04_printf_hex: field width larger than the model supports");
+  if (len == C04_LEN_hh) {
+    v = (unsigned char)v;
+    if (width > 7) vstr_push_back(ret, '0');
+    if (width > 6) vstr_push_back(ret, '0');
+    if (width > 5) vstr_push_back(ret, '0');
+    if (width > 4) vstr_push_back(ret, '0');
+    if (width > 3) vstr_push_back(ret, '0');
+    if (width > 2) vstr_push_back(ret, '0');
+    if (width > 1 || v >= 0x10u) vstr_push_back(ret, C04_HEXCH((v >> 4) & 15, upper));
+    vstr_push_back(ret, C04_HEXCH(v & 15, upper));
+    return;
+  }
+  if (len == C04_LEN_h) v = (unsigned short)v;
+  unsigned nd = v >= 0x10000000u ? 8 : v >= 0x1000000u ? 7 : v >= 0x100000u ? 6 : v >= 0x10000u ? 5 : v >= 0x1000u ? 4 : v >= 0x100u ? 3 : v >= 0x10u ? 2 : 1;
   unsigned total = nd > width ? nd : width;
   if (total > 7) vstr_push_back(ret, C04_HEXCH((v >> 28) & 15, upper));
   if (total > 6) vstr_push_back(ret, C04_HEXCH((v >> 24) & 15, upper));
